@@ -19,6 +19,9 @@ pub struct Names {
     pub isize_suffix: bool,
     /// wrap list arguments of `==` in `{lterm!(..)}` when their hash is odd
     pub lterm_args: bool,
+    /// vary the spelling of scalar literals from occurrence to occurrence (`16`, `0x10`, `1_6`,
+    /// `16isize`; `'a'`, `'\x61'`; `"s"`, `"\u{73}"`): the value is what counts
+    pub spellings: bool,
 }
 
 impl Names {
@@ -39,9 +42,35 @@ pub struct Emitter<'a> {
     pub dfs_depth: usize,
     /// collections of `for` loops, hoisted before the query: (name, elements source)
     pub colls: Vec<(String, String)>,
+    /// number of scalar literals printed so far (drives the spelling variation)
+    pub nlits: std::cell::Cell<u32>,
 }
 
 fn lit(t: &Term, e: &Emitter) -> Option<String> {
+    if e.names.spellings {
+        let k = e.nlits.get();
+        e.nlits.set(k + 1);
+        match t {
+            Term::Int(i) if *i >= 0 => {
+                return Some(match k % 5 {
+                    0 => format!("{}", i),
+                    1 => format!("{:#x}", i),
+                    2 => format!("{}isize", i),
+                    3 => {
+                        // digit separator
+                        let d = format!("{}", i);
+                        if d.len() >= 2 { format!("{}_{}", &d[..1], &d[1..]) } else { format!("{}_", d) }
+                    }
+                    _ => format!("{:#b}", i),
+                });
+            }
+            Term::Char(c) if c.is_ascii() && k % 2 == 1 => return Some(format!("'\\x{:02x}'", *c as u32)),
+            Term::Str(st) if !st.is_empty() && st.is_ascii() && k % 2 == 1 => {
+                return Some(format!("\"{}\"", st.chars().map(|c| format!("\\u{{{:x}}}", c as u32)).collect::<String>()));
+            }
+            _ => {}
+        }
+    }
     Some(match t {
         Term::Int(i) if *i >= 0 => {
             if e.names.isize_suffix && *i % 3 == 0 {
@@ -59,7 +88,7 @@ fn lit(t: &Term, e: &Emitter) -> Option<String> {
 
 impl<'a> Emitter<'a> {
     pub fn new(names: &'a Names, nq: usize) -> Emitter<'a> {
-        Emitter { names, nq, dfs_depth: 0, colls: vec![] }
+        Emitter { names, nq, dfs_depth: 0, colls: vec![], nlits: std::cell::Cell::new(0) }
     }
 
     /// a term inside a list / pattern position: TreeTerm grammar only
